@@ -14,7 +14,7 @@
    function, resp. for every one that meets the stated hypothesis. *)
 From Coq Require Import List Ascii String NArith ZArith Bool.
 From ZenoV Require Import Lib.Hex Html.Bytes Html.Scan Html.Html Html.Ref Html.Plant Html.Spec
-  Html.ScanProofs Html.HtmlProofs.
+  Html.Chain Html.ScanProofs Html.HtmlProofs Html.ChainProofs.
 Import ListNotations.
 
 (* Every URL planted in a standard embedding attribute is among the strings HTMLAssets returns -
@@ -107,6 +107,54 @@ Theorem C07_anchors_queued_resolved :
         (post_outlinks onclick_url resolve_url true dc_match page_links c s (render_loc page) dom)).
 Proof. exact anchors_queued_resolved_lemma. Qed.
 Print Assumptions C07_anchors_queued_resolved.
+
+(* Redirects do not count for the depth limit: a page that answered 200 behind ANY number of
+   redirects is at depth 0 for GetDepthWithoutRedirections (while GetDepth counts the hops). *)
+Theorem C07_redirects_do_not_count : forall n : nat,
+  dwr (redirect_path n) = 0%Z /\ depth (redirect_path n) = Z.of_nat n.
+Proof. exact (fun n => conj (redirects_do_not_count_lemma n) (depth_counts_redirects n)). Qed.
+Print Assumptions C07_redirects_do_not_count.
+
+(* The base of resolution moves along a redirect chain: every child is normalised against its
+   PARENT item's URL, so the chain of Location references leads to the hop-by-hop RFC 3986
+   resolution - for all chains, whatever their length. *)
+Theorem C07_follow_chain :
+  forall (norm : bytes -> bytes -> option bytes) (locations : list ref) (seed : loc),
+  (forall p, In p (chain_pages seed locations) -> norm_rfc_at norm p) ->
+  Forall (fun r => simple_ref r = true /\ trim_quotes (render_ref r) = render_ref r) locations ->
+  follow norm (render_loc seed) (map render_ref locations)
+  = Some (render_loc (follow_spec seed locations)).
+Proof. exact follow_chain_lemma. Qed.
+Print Assumptions C07_follow_chain.
+
+(* And the page at the end of the chain gets its requisites requested resolved against the PAGE
+   (not the seed), at every chain length: the depth excuse does not apply, and preprocess()
+   builds a request for the RFC 3986 resolution unless it is a bare domain or the URL of an item
+   already in the seed tree ([tree]: DedupeItems, "already seen"). *)
+Theorem C07_requested_behind_redirects :
+  forall (norm : bytes -> bytes -> option bytes)
+         (data_item_urls : bytes -> list bytes) (script_extra : node -> list bytes)
+         (is_root : bytes -> bool),
+  (forall l : loc, is_root (render_loc l) = match l_segs l with [[]] => true | _ => false end) ->
+  forall (seed : loc) (locations : list ref) (tree : list bytes)
+         (c : cfg) (mime_html : bool) (hops : Z) (dc : bool)
+         (dom : list node) (e : node) (r : ref),
+  let page := follow_spec seed locations in
+  let s := PState 200 (dwr (redirect_path (List.length locations))) mime_html hops dc in
+  norm_rfc_at norm page ->
+  has_base dom = false ->
+  In e (all_elems dom) -> referenced c e (render_ref r) ->
+  simple_ref r = true ->
+  trim_quotes (render_ref r) = render_ref r ->
+  render_ref r <> render_loc page ->
+  l_segs (resolve page r) <> [[]] ->
+  ~ In (render_loc (resolve page r)) tree ->
+  c_noassets c = false ->
+  In (render_loc (resolve page r))
+     (pre_requests data_item_urls script_extra true (norm (render_loc page)) is_root tree
+                   c s (render_loc page) dom).
+Proof. exact requested_behind_redirects_lemma. Qed.
+Print Assumptions C07_requested_behind_redirects.
 
 (* item.go as found: with --disable-assets-capture the anchors of a page within the hop limit
    are not handed on (the first list is what the code as found returns, the second what the
